@@ -618,6 +618,29 @@ fn check_any(case: &HistCase, input: &[u8], mon: &mut Mon) {
     if !benign {
         return;
     }
+    // O6.1 for whole histories: on a benign stream (chunking and Interrupted only)
+    // every operation of the history, of whatever kind, gives what the slice
+    // reader gives, up to and including the first error
+    if matches!(case.source, Source::Stream(_)) {
+        let reference = exec(case.opts, &Source::Slice, input, &case.ops, case.then_drain, mon);
+        if !reference.abnormal {
+            mon.count("c06.history_differential_runs");
+            for (i, (a, b)) in run.steps.iter().zip(reference.steps.iter()).enumerate() {
+                if !equiv(&a.res, &b.res) {
+                    mon.violate(
+                        "C06",
+                        "O6.1",
+                        format!("a history on a benign stream differs from the slice reader ({} vs {})", res_sig(&a.res), res_sig(&b.res)),
+                        format!("{}: op {} {}: stream gives {}, slice gives {}", ctx_of(case, input), i, a.op.name(), show_res(&a.res), show_res(&b.res)),
+                    );
+                    break;
+                }
+                if a.res.is_err() {
+                    break;
+                }
+            }
+        }
+    }
     // O12.5 mode agreement: the pure drains and this history, up to and including the first error
     let Some(_) = case.then_drain else { return };
     if case.ops.iter().any(|o| !o.reports_end()) {
@@ -1452,3 +1475,15 @@ pub fn c17_run(seed: u64, i: u64, _tier: Tier, mon: &mut Mon, found: &mut Vec<Fo
     mon.count("scenarios");
 }
 
+
+
+/// C06's share of E-HIST: a mixed-operation history on a benign stream, compared
+/// with the same history on the slice reader.
+pub fn c06_history_run(rng: &mut Rng, mon: &mut Mon, found: &mut Vec<Found>) {
+    let mut opts_ix = opts::draw_parse(rng);
+    let (input, _) = engine::draw_text(rng, &mut opts_ix, 1024);
+    let plan = engine::draw_read_plan(rng, input.len());
+    let (ops, drain) = draw_ops(rng, 5, false);
+    let case = HistCase { opts: opts_ix, source: Source::Stream(plan), workload: Workload::Any { input }, ops, then_drain: drain.or(Some(Op::NextValue)) };
+    run_and_collect(case, mon, found);
+}
